@@ -49,6 +49,10 @@ func (f *lockFacts) fail(fact *bool, format string, a ...interface{}) {
 }
 
 func genLockFacts(repo string, root *pkg) {
+	runGen("genLockFacts", []string{"LockFacts"}, func() { genLockFactsImpl(repo, root) })
+}
+
+func genLockFactsImpl(repo string, root *pkg) {
 	f := computeLockFacts(root)
 	var b bytes.Buffer
 	b.WriteString("-- lock-discipline facts of reassembler.go (see harness/cmd/extract/conc.go)\n")
